@@ -1,4 +1,5 @@
 import ShpanVerif.Drive.PipeCommon
+import ShpanVerif.Drive.PipeDyn
 /-
 Driver handler for C01: every opened resource is closed exactly once, on every exit path.
 Spec predicate on the observation: for every probe resource the event projection is
@@ -10,6 +11,7 @@ namespace ShpanVerif.Drive.C01
 open ShpanVerif.Util ShpanVerif.Model.Pipe ShpanVerif.Drive.PipeCommon
 
 def handle (c obs : String) : String × Bool × String :=
+  if c.startsWith "DYN " then ShpanVerif.Drive.PipeDyn.handle c obs else   -- FlatMap family (Model/PipeDyn.lean)
   if isSpecOnly c then
     -- operators outside the model: the property itself is evaluated on the observation of the real code
     match parseObs obs with
